@@ -38,6 +38,8 @@ def table():
             cells.append(f"{c}: {b}" + (f" (first run: {a}; check strengthened since)" if a != b and not b.startswith("missed") and not a.endswith("concrete") else ""))
         summ = " ".join(str(meta.get("summary", "")).split())[:260].replace("|", "\\|")
         needs = " ".join(str(meta.get("needs", "")).split())[:200].replace("|", "\\|")
+        if meta.get("note"):
+            needs += " — *note:* " + " ".join(str(meta["note"]).split()).replace("|", "\\|")
         rows.append(f"| {d.name} | {meta.get('property')} | {summ} — *needs:* {needs} | {'yes' if confirmed else 'no'} | {'; '.join(cells) or 'not run yet'} |")
     head = ("| Seed | Property | Change — what it needs to manifest | Confirmed | Latest outcome of the checks run against it |\n"
             "|------|----------|------------------------------------|-----------|----------------------------------------------|\n")
